@@ -12,12 +12,16 @@
      failure of reading the pid reference during `tag_object` leaves the pid
      half-bound and the retry is rejected — witness checked by `decide`; the same
      run is replayed on the real code by this check (known finding K4).
-  Not proved: "error or whole effect" and the roll-back for one-off plans in
-  general (established by the fault sweep of this check on the real code and by
+   * `store_metadata` under ANY fault plan, from any state: it returns the path
+     and the document is the new version, or it raises and every document —
+     the previous version of this one included — is as before.
+  Not proved: "error or whole effect" for the object calls and the roll-back
+  for one-off plans in general (established by the fault sweep of this check on the real code and by
   model/code agreement under every plan).
 -/
 import HSModel.Props.C09
 import HSModel.Props.C10
+import HSModel.Proofs.FaultMeta
 namespace HS.C13
 variable (cfg : Config) (o : Oracle)
 
@@ -32,6 +36,20 @@ theorem objects_well_addressed_under_any_fault (c : Call) (w : World) (f : Fault
     (h : C09.ObjsAddressed cfg o w.st) :
     C09.ObjsAddressed cfg o ((c.prog cfg o).run { w with fault := some f }).2.st :=
   C09.objects_well_addressed_after cfg o c { w with fault := some f } h
+
+/-- `store_metadata` under any fault plan (any site kind, any destination, one-off
+    or persistent, any state of the plan), from any store and any lock state in
+    which the document's name is free: **the path is returned and the document
+    is the new version, or an error is raised and every document is as before**
+    (the previous version is intact) -/
+theorem store_metadata_error_or_whole_effect (w : World) (p f : Str) (t : Tok) (fmt : SArg)
+    (hp : checkStringOk p = true) (hf : checkArgFormatId cfg.ns fmt = .ok f)
+    (hfree : o.hId (p ++ f) ∉ w.lk.doc) :
+    (((storeMetadata cfg o (.str p) (.ok t) fmt).run w).1 = .ok (.path (.mdoc (o.hId p) (o.hId (p ++ f)))) ∧
+        ((storeMetadata cfg o (.str p) (.ok t) fmt).run w).2.st.mdocs = w.st.mdocs.set (o.hId p, o.hId (p ++ f)) t) ∨
+      (∃ e, ((storeMetadata cfg o (.str p) (.ok t) fmt).run w).1 = .error e ∧
+        ((storeMetadata cfg o (.str p) (.ok t) fmt).run w).2.st.mdocs = w.st.mdocs) :=
+  smeta_error_or_effect cfg o w p f t fmt hp hf hfree
 
 /-- a one-off plan that has fired never fails another primitive -/
 theorem one_off_fires_once (f : Fault) (e : Ev) (hf : f.fired = true) (hp : f.persistent = false) :
